@@ -76,6 +76,7 @@ struct Config {
     int64_t tick_ns = 1000;     // simulated time per scheduling step
     int64_t epoch_real_ns = 1700000000ll * 1000000000ll;
     int64_t epoch_mono_ns = 1000;
+    uint32_t libc_point_every = 0; // every n-th return of an intercepted libc writer (sprintf, strcpy, ...) is a scheduling point; 0 = never
     double sb_drain_prob = 0.3; // per scheduling step while some store buffer is non-empty: drain one delayed store
     bool thread_create_faults = false;
     double thread_create_fail_prob = 0.0;
@@ -137,6 +138,7 @@ void advance_ns(int64_t d);
 // memory / atomic preemption points (called from instrumentation callbacks)
 void mem_event(const void* addr, int size, bool is_write);
 void atomic_event(const void* addr, int size, int kind);
+void libc_write_point();   // called after a libc function wrote a caller-supplied buffer (force-included macros in SUT code)
 int atomic_store(void* addr, int size, uint64_t v, int order);            // 1: delayed in the store buffer, 0: caller stores now
 int atomic_load(const void* addr, int size, int order, uint64_t* out);    // 1: value forwarded from the own store buffer
 
